@@ -124,6 +124,20 @@ WHOLE_TREE = [
      'what': 'a function ending in `if c: BLOCK` becomes `if not c: return; BLOCK`'},
     {'id': 'whole-tree-sort-methods', 'kind': 'silent', 'transform': 'sort_methods_tree',
      'what': 'methods of a class are put in alphabetical order'},
+    {'id': 'whole-tree-annotate-locals', 'kind': 'silent', 'transform': 'annotate_locals_tree',
+     'what': "every plain local assignment gets a variable annotation (x: 'object' = v)"},
+    {'id': 'whole-tree-percent-to-format', 'kind': 'silent', 'transform': 'percent_to_format_tree',
+     'what': "'%s' % (...) becomes '{}'.format(...)"},
+    {'id': 'whole-tree-merge-nested-if', 'kind': 'silent', 'transform': 'merge_nested_if_tree',
+     'what': '`if a: if b: X` becomes `if a and b: X`'},
+    {'id': 'whole-tree-ifexp-to-if', 'kind': 'silent', 'transform': 'ifexp_to_if_tree',
+     'what': '`x = A if c else B` becomes an if statement'},
+    {'id': 'whole-tree-swap-independent', 'kind': 'silent', 'transform': 'swap_independent_tree',
+     'what': 'adjacent independent side-effect-free assignments are exchanged'},
+    {'id': 'whole-tree-import-style', 'kind': 'silent', 'transform': 'import_style_tree',
+     'what': '`from pkg import mod` becomes `import pkg.mod as mod`'},
+    {'id': 'whole-tree-delegate', 'kind': 'silent', 'transform': 'delegate_tree',
+     'what': 'every function / method body is moved into an _impl twin and the original delegates to it'},
 ]
 
 
